@@ -1,4 +1,4 @@
-\* generation (quick): forLoops of LoopsQuick (every iteration class alone, all pairs outer-outer and outer-inner of four classes, 3 and 3+3 nests) and TiledLoopsQuick
+\* generation (quick): forLoops of LoopsQuick (every iteration class alone incl. empty ones, all pairs outer-outer and outer-inner of {dim, negative-step range} plus index-array pairs, a 3-nest, a 1+2 nest and a 3+3 nest) and TiledLoopsQuick
 SPECIFICATION Spec
 CONSTANTS
   Mode = "loop"
